@@ -49,6 +49,24 @@ struct Obs {
     pull: Option<String>,
     chain: Option<Vec<String>>,
     is_null: bool,
+    /// Display / Debug texts under every formatter flag family (FAMILIES order)
+    fdisplay: Vec<String>,
+    fdebug: Vec<String>,
+    /// flagged template holes: #[emit::fmt("#?")], #[emit::fmt(">8.2?")], #[emit::fmt(">8.2")]
+    holes: Option<[String; 3]>,
+}
+
+/// The formatter flag families of spec/Capture.tla (FmtFamilies), in the order of the text vectors.
+const FAMILIES: &[&str] = &["alt", "width", "fill", "prec", "widthprec", "sign", "zero", "hex"];
+const WIDTHPREC: usize = 4;
+const HEX: usize = 7;
+
+fn fmt_display_all<T: std::fmt::Display + ?Sized>(x: &T) -> Vec<String> {
+    vec![format!("{:#}", x), format!("{:>10}", x), format!("{:*>6}", x), format!("{:.2}", x), format!("{:>8.2}", x), format!("{:+}", x), format!("{:06}", x), String::new()]
+}
+
+fn fmt_debug_all<T: std::fmt::Debug + ?Sized>(x: &T) -> Vec<String> {
+    vec![format!("{:#?}", x), format!("{:>10?}", x), format!("{:*>6?}", x), format!("{:.2?}", x), format!("{:>8.2?}", x), format!("{:+?}", x), format!("{:06?}", x), format!("{:x?}|{:#06x?}", x, x)]
 }
 
 /// What the original value says about itself (filled per capture mode at the call site).
@@ -61,7 +79,37 @@ struct Expect {
     sval: Option<String>,
     pull: Option<String>,
     chain: Option<Vec<String>>,
+    /// the number as the f64 it converts to (numbers only)
+    f64: Option<String>,
+    /// the original's Display / Debug texts under every formatter flag family
+    fdisplay: Option<Vec<String>>,
+    fdebug: Option<Vec<String>>,
+    ftext: Option<Vec<String>>,
 }
+
+/// Text of an f64 for comparison: the bits, all NaNs alike.
+fn f64_text(f: f64) -> String {
+    if f.is_nan() { "NaN".to_string() } else { format!("{:016x} ({f:?})", f.to_bits()) }
+}
+
+/// What `Value::as_f64` promises for a number: the `as` conversion.
+trait MaybeF64 {
+    fn f64_text(&self) -> Option<String> {
+        None
+    }
+}
+macro_rules! maybe_f64_num {
+    ($($t:ty),*) => {$(
+        impl MaybeF64 for $t {
+            fn f64_text(&self) -> Option<String> {
+                Some(f64_text(*self as f64))
+            }
+        }
+    )*};
+}
+maybe_f64_num!(i8, i16, i32, i64, i128, isize, u8, u16, u32, u64, u128, usize, f64, f32);
+impl MaybeF64 for bool {}
+impl MaybeF64 for String {}
 
 type Observe<'a> = &'a (dyn Fn(emit::Value) -> Option<String> + Sync);
 
@@ -92,6 +140,9 @@ fn observe(v: emit::Value, pull: Observe) -> Obs {
         sval: sval_json::stream_to_string(&v).ok(),
         chain: chain_of_value(&v),
         is_null: v.is_null(),
+        fdisplay: fmt_display_all(&v),
+        fdebug: fmt_debug_all(&v),
+        holes: None,
         pull: pull(v),
     }
 }
@@ -115,7 +166,47 @@ fn read_value(v: emit::Value, rd: Rd) -> Obs {
             // a template hole rendered with the value: what every sink's message shows
             let mut o = observe(v.by_ref(), rd.pull);
             let parts = [emit::template::Part::hole_ref("k")];
-            o.display = emit::Template::new_ref(&parts).render(("k", v)).to_string();
+            o.display = emit::Template::new_ref(&parts).render(("k", v.by_ref())).to_string();
+            // holes carrying formatter flags, at real macro call sites
+            o.holes = Some([
+                emit::format!("{k}", #[emit::fmt("#?")] #[emit::as_value] k: v.by_ref()),
+                emit::format!("{k}", #[emit::fmt(">8.2?")] #[emit::as_value] k: v.by_ref()),
+                emit::format!("{k}", #[emit::fmt(">8.2")] #[emit::as_value] k: v.by_ref()),
+            ]);
+            o
+        }
+        // typed read paths: the typed component is taken through them
+        "as_f64" => {
+            let mut o = observe(v.by_ref(), rd.pull);
+            o.pull = Some(f64_text(v.as_f64()));
+            o
+        }
+        "borrowed_str" => {
+            let mut o = observe(v.by_ref(), rd.pull);
+            o.pull = v.to_borrowed_str().map(|s| format!("{s:?}"));
+            o
+        }
+        "cast_ref_str" => {
+            let mut o = observe(v.by_ref(), rd.pull);
+            o.pull = v.by_ref().cast::<&str>().map(|s| format!("{s:?}"));
+            o
+        }
+        "cast_string" => {
+            let mut o = observe(v.by_ref(), rd.pull);
+            o.pull = v.by_ref().cast::<String>().map(|s| format!("{:?}", &s[..]));
+            o
+        }
+        "cast_error" => {
+            let mut o = observe(v.by_ref(), rd.pull);
+            o.chain = v.by_ref().cast::<&(dyn std::error::Error + 'static)>().map(|e| {
+                let mut out = vec![e.to_string()];
+                let mut c = e.source();
+                while let Some(s) = c {
+                    out.push(s.to_string());
+                    c = s.source();
+                }
+                out
+            });
             o
         }
         // after a ReadBack the value is a plain borrowed Value again
@@ -137,6 +228,9 @@ fn read_owned(o: &emit::value::OwnedValue, rd: Rd) -> Obs {
                 sval: sval_json::stream_to_string(o).ok(),
                 chain: chain_of_value(&v),
                 is_null: v.is_null(),
+                fdisplay: fmt_display_all(o),
+                fdebug: fmt_debug_all(o),
+                holes: None,
                 pull: (rd.pull)(v),
             }
         }
@@ -249,6 +343,8 @@ struct SiteResult {
     obs: Option<Obs>,
     /// Display text of the captured Value before any transformation
     base_display: Option<String>,
+    base_fdisplay: Option<Vec<String>>,
+    base_fdebug: Option<Vec<String>>,
     exp: Expect,
     orig: String,
 }
@@ -265,6 +361,8 @@ fn finish(props: &impl Props, key: &str, path: &[Step], rd: Rd, exp: Expect, ori
     let got = props.get(key);
     let present = got.is_some();
     let base_display = got.as_ref().map(|v| v.to_string());
+    let base_fdisplay = got.as_ref().map(|v| fmt_display_all(v));
+    let base_fdebug = got.as_ref().map(|v| fmt_debug_all(v));
     // an absent property stays absent wherever the props go
     let mut absent_everywhere = true;
     if !present {
@@ -306,7 +404,7 @@ fn finish(props: &impl Props, key: &str, path: &[Step], rd: Rd, exp: Expect, ori
         }
         _ => got.map(|v| go(v, path, rd)),
     };
-    SiteResult { present, enumerated, absent_everywhere, obs, base_display, exp, orig }
+    SiteResult { present, enumerated, absent_everywhere, obs, base_display, base_fdisplay, base_fdebug, exp, orig }
 }
 
 // ---------------------------------------------------------------- pool values per Rust type
@@ -440,6 +538,28 @@ impl Gen for BTreeMap<String, Vec<f64>> {
         (0..p.rng.below(3)).map(|i| (p.key_string(i as usize), (0..p.rng.below(3)).map(|_| f64::gen(p)).collect())).collect()
     }
 }
+macro_rules! gen_arr {
+    ($($t:ty, $n:literal);*) => {$(
+        impl Gen for [$t; $n] {
+            fn gen(p: &mut Pool) -> Self {
+                std::array::from_fn(|_| <$t as Gen>::gen(p))
+            }
+            fn extremes(p: &mut Pool) -> Vec<Self> {
+                let xs = <$t as Gen>::extremes(p);
+                (0..xs.len()).map(|i| std::array::from_fn(|j| xs[(i + j) % xs.len()].clone())).collect()
+            }
+        }
+    )*};
+}
+gen_arr!(i64, 3; u8, 2; u128, 1; f64, 2; bool, 2; i32, 0);
+impl Gen for [&'static str; 2] {
+    fn gen(p: &mut Pool) -> Self {
+        [p.pick(STRS), p.pick(UNIS)]
+    }
+    fn extremes(_: &mut Pool) -> Vec<Self> {
+        vec![["", "plain"], [CTLS[1], UNIS[1]], [LOOKALIKES[0], LOOKALIKES[11]]]
+    }
+}
 impl Gen for Option<i32> {
     fn gen(_: &mut Pool) -> Self {
         None
@@ -556,6 +676,10 @@ struct Site {
     run: fn(&mut Pool, &[Step], &str, Option<usize>) -> Option<SiteResult>,
 }
 
+fn str_pull(v: emit::Value) -> Option<String> {
+    v.cast::<Cow<str>>().map(|x| format!("{:?}", &*x))
+}
+
 fn no_pull(_: emit::Value) -> Option<String> {
     None
 }
@@ -635,30 +759,30 @@ macro_rules! prim_sites {
         site!($reg, "optional_as_serde", $class, $ty, [#[emit::optional] #[emit::as_serde]], k, |$oo| $oe, |x, exp| { exp.serde = serde_json::to_string(x).ok(); exp.sval = sval_json::stream_to_string(x).ok(); }, no_pull);
     };
     (@notree $reg:ident, $class:literal, $ty:ty, |$o:ident| $e:expr, |$oo:ident| $oe:expr, $pull:expr, |$px:ident| $pexp:expr) => {
-        site!($reg, "default", $class, $ty, [], k, |$o| $e, |x, exp| { exp.display = Some(format!("{}", x)); let $px = x; exp.pull = Some($pexp); }, $pull);
-        site!($reg, "as_display", $class, $ty, [#[emit::as_display]], k, |$o| $e, |x, exp| { exp.display = Some(format!("{}", x)); }, no_pull);
-        site!($reg, "as_display_inspect", $class, $ty, [#[emit::as_display(inspect: true)]], k, |$o| $e, |x, exp| { exp.display = Some(format!("{}", x)); }, no_pull);
-        site!($reg, "as_debug", $class, $ty, [#[emit::as_debug]], k, |$o| $e, |x, exp| { exp.debug = Some(format!("{:?}", x)); exp.text = Some(format!("{}", x)); }, no_pull);
-        site!($reg, "as_debug_inspect", $class, $ty, [#[emit::as_debug(inspect: true)]], k, |$o| $e, |x, exp| { exp.debug = Some(format!("{:?}", x)); exp.text = Some(format!("{}", x)); }, no_pull);
-        site!($reg, "as_value", $class, $ty, [#[emit::as_value]], k, |$o| $e, |x, exp| { let $px = x; exp.pull = Some($pexp); }, $pull);
-        site!($reg, "as_value_inspect", $class, $ty, [#[emit::as_value(inspect: true)]], k, |$o| $e, |x, exp| { let $px = x; exp.pull = Some($pexp); }, $pull);
-        site!($reg, "optional_default", $class, $ty, [#[emit::optional]], k, |$oo| $oe, |x, exp| { exp.display = Some(format!("{}", x)); let $px = x; exp.pull = Some($pexp); }, $pull);
-        site!($reg, "optional_as_value", $class, $ty, [#[emit::optional] #[emit::as_value]], k, |$oo| $oe, |x, exp| { let $px = x; exp.pull = Some($pexp); }, $pull);
-        site!($reg, "optional_as_debug", $class, $ty, [#[emit::optional] #[emit::as_debug]], k, |$oo| $oe, |x, exp| { exp.debug = Some(format!("{:?}", x)); exp.text = Some(format!("{}", x)); }, no_pull);
+        site!($reg, "default", $class, $ty, [], k, |$o| $e, |x, exp| { exp.display = Some(format!("{}", x)); exp.fdisplay = Some(fmt_display_all(x)); exp.f64 = MaybeF64::f64_text(x); let $px = x; exp.pull = Some($pexp); }, $pull);
+        site!($reg, "as_display", $class, $ty, [#[emit::as_display]], k, |$o| $e, |x, exp| { exp.display = Some(format!("{}", x)); exp.fdisplay = Some(fmt_display_all(x)); }, no_pull);
+        site!($reg, "as_display_inspect", $class, $ty, [#[emit::as_display(inspect: true)]], k, |$o| $e, |x, exp| { exp.display = Some(format!("{}", x)); exp.fdisplay = Some(fmt_display_all(x)); }, no_pull);
+        site!($reg, "as_debug", $class, $ty, [#[emit::as_debug]], k, |$o| $e, |x, exp| { exp.debug = Some(format!("{:?}", x)); exp.fdebug = Some(fmt_debug_all(x)); exp.text = Some(format!("{}", x)); exp.ftext = Some(fmt_display_all(x)); }, no_pull);
+        site!($reg, "as_debug_inspect", $class, $ty, [#[emit::as_debug(inspect: true)]], k, |$o| $e, |x, exp| { exp.debug = Some(format!("{:?}", x)); exp.fdebug = Some(fmt_debug_all(x)); exp.text = Some(format!("{}", x)); exp.ftext = Some(fmt_display_all(x)); }, no_pull);
+        site!($reg, "as_value", $class, $ty, [#[emit::as_value]], k, |$o| $e, |x, exp| { exp.f64 = MaybeF64::f64_text(x); let $px = x; exp.pull = Some($pexp); }, $pull);
+        site!($reg, "as_value_inspect", $class, $ty, [#[emit::as_value(inspect: true)]], k, |$o| $e, |x, exp| { exp.f64 = MaybeF64::f64_text(x); let $px = x; exp.pull = Some($pexp); }, $pull);
+        site!($reg, "optional_default", $class, $ty, [#[emit::optional]], k, |$oo| $oe, |x, exp| { exp.display = Some(format!("{}", x)); exp.fdisplay = Some(fmt_display_all(x)); exp.f64 = MaybeF64::f64_text(x); let $px = x; exp.pull = Some($pexp); }, $pull);
+        site!($reg, "optional_as_value", $class, $ty, [#[emit::optional] #[emit::as_value]], k, |$oo| $oe, |x, exp| { exp.f64 = MaybeF64::f64_text(x); let $px = x; exp.pull = Some($pexp); }, $pull);
+        site!($reg, "optional_as_debug", $class, $ty, [#[emit::optional] #[emit::as_debug]], k, |$oo| $oe, |x, exp| { exp.debug = Some(format!("{:?}", x)); exp.fdebug = Some(fmt_debug_all(x)); exp.text = Some(format!("{}", x)); exp.ftext = Some(fmt_display_all(x)); }, no_pull);
     };
 }
 
 /// Structured types captured by reference: as_debug, as_sval, as_serde (+ inspect, optional).
 macro_rules! tree_sites {
     ($reg:ident, $class:literal, $ty:ty) => {
-        site!($reg, "as_debug", $class, $ty, [#[emit::as_debug]], k, |o| o, |x, exp| { exp.debug = Some(format!("{:?}", x)); }, no_pull);
+        site!($reg, "as_debug", $class, $ty, [#[emit::as_debug]], k, |o| o, |x, exp| { exp.debug = Some(format!("{:?}", x)); exp.fdebug = Some(fmt_debug_all(x)); }, no_pull);
         site!($reg, "as_sval", $class, $ty, [#[emit::as_sval]], k, |o| o, |x, exp| { exp.serde = serde_json::to_string(x).ok(); exp.sval = sval_json::stream_to_string(x).ok(); }, no_pull);
         site!($reg, "as_sval_inspect", $class, $ty, [#[emit::as_sval(inspect: true)]], k, |o| o, |x, exp| { exp.serde = serde_json::to_string(x).ok(); exp.sval = sval_json::stream_to_string(x).ok(); }, no_pull);
         site!($reg, "as_serde", $class, $ty, [#[emit::as_serde]], k, |o| o, |x, exp| { exp.serde = serde_json::to_string(x).ok(); exp.sval = sval_json::stream_to_string(x).ok(); }, no_pull);
         site!($reg, "as_serde_inspect", $class, $ty, [#[emit::as_serde(inspect: true)]], k, |o| o, |x, exp| { exp.serde = serde_json::to_string(x).ok(); exp.sval = sval_json::stream_to_string(x).ok(); }, no_pull);
     };
     (@optional $reg:ident, $class:literal, $ty:ty) => {
-        site!($reg, "optional_as_debug", $class, $ty, [#[emit::optional] #[emit::as_debug]], k, |o| Some(o), |x, exp| { exp.debug = Some(format!("{:?}", x)); }, no_pull);
+        site!($reg, "optional_as_debug", $class, $ty, [#[emit::optional] #[emit::as_debug]], k, |o| Some(o), |x, exp| { exp.debug = Some(format!("{:?}", x)); exp.fdebug = Some(fmt_debug_all(x)); }, no_pull);
         site!($reg, "optional_as_sval", $class, $ty, [#[emit::optional] #[emit::as_sval]], k, |o| Some(o), |x, exp| { exp.serde = serde_json::to_string(x).ok(); exp.sval = sval_json::stream_to_string(x).ok(); }, no_pull);
         site!($reg, "optional_as_serde", $class, $ty, [#[emit::optional] #[emit::as_serde]], k, |o| Some(o), |x, exp| { exp.serde = serde_json::to_string(x).ok(); exp.sval = sval_json::stream_to_string(x).ok(); }, no_pull);
     };
@@ -691,13 +815,13 @@ fn sites() -> Vec<Site> {
             inspect_false_sites!(@one $which, $class, $ty, |$o| $e, $pull, |$px| $pexp);
         )*};
         (@one display, $class:literal, $ty:ty, |$o:ident| $e:expr, $pull:expr, |$px:ident| $pexp:expr) => {
-            site!(reg, "as_display_inspect_false", $class, $ty, [#[emit::as_display(inspect: false)]], k, |$o| $e, |x, exp| { exp.display = Some(format!("{}", x)); }, no_pull);
+            site!(reg, "as_display_inspect_false", $class, $ty, [#[emit::as_display(inspect: false)]], k, |$o| $e, |x, exp| { exp.display = Some(format!("{}", x)); exp.fdisplay = Some(fmt_display_all(x)); }, no_pull);
         };
         (@one debug, $class:literal, $ty:ty, |$o:ident| $e:expr, $pull:expr, |$px:ident| $pexp:expr) => {
-            site!(reg, "as_debug_inspect_false", $class, $ty, [#[emit::as_debug(inspect: false)]], k, |$o| $e, |x, exp| { exp.debug = Some(format!("{:?}", x)); }, no_pull);
+            site!(reg, "as_debug_inspect_false", $class, $ty, [#[emit::as_debug(inspect: false)]], k, |$o| $e, |x, exp| { exp.debug = Some(format!("{:?}", x)); exp.fdebug = Some(fmt_debug_all(x)); }, no_pull);
         };
         (@one value, $class:literal, $ty:ty, |$o:ident| $e:expr, $pull:expr, |$px:ident| $pexp:expr) => {
-            site!(reg, "as_value_inspect_false", $class, $ty, [#[emit::as_value(inspect: false)]], k, |$o| $e, |x, exp| { let $px = x; exp.pull = Some($pexp); }, $pull);
+            site!(reg, "as_value_inspect_false", $class, $ty, [#[emit::as_value(inspect: false)]], k, |$o| $e, |x, exp| { exp.f64 = MaybeF64::f64_text(x); let $px = x; exp.pull = Some($pexp); }, $pull);
         };
         (@one sval, $class:literal, $ty:ty, |$o:ident| $e:expr, $pull:expr, |$px:ident| $pexp:expr) => {
             site!(reg, "as_sval_inspect_false", $class, $ty, [#[emit::as_sval(inspect: false)]], k, |$o| $e, |x, exp| { exp.serde = serde_json::to_string(x).ok(); exp.sval = sval_json::stream_to_string(x).ok(); }, no_pull);
@@ -724,13 +848,13 @@ fn sites() -> Vec<Site> {
             wrapped_sites!(reg, "default", $class, $ty, [], "t {k}", |$o| $e, |x, exp| { let $px = x; exp.pull = Some($pexp); }, $pull);
         };
         (@one default_display, $class:literal, $ty:ty, |$o:ident| $e:expr, $pull:expr, |$px:ident| $pexp:expr) => {
-            wrapped_sites!(reg, "default", $class, $ty, [], "t {k}", |$o| $e, |x, exp| { exp.display = Some(format!("{}", x)); }, no_pull);
+            wrapped_sites!(reg, "default", $class, $ty, [], "t {k}", |$o| $e, |x, exp| { exp.display = Some(format!("{}", x)); exp.fdisplay = Some(fmt_display_all(x)); }, no_pull);
         };
         (@one display, $class:literal, $ty:ty, |$o:ident| $e:expr, $pull:expr, |$px:ident| $pexp:expr) => {
-            wrapped_sites!(reg, "as_display", $class, $ty, [#[emit::as_display]], "t {#[emit::as_display] k}", |$o| $e, |x, exp| { exp.display = Some(format!("{}", x)); }, no_pull);
+            wrapped_sites!(reg, "as_display", $class, $ty, [#[emit::as_display]], "t {#[emit::as_display] k}", |$o| $e, |x, exp| { exp.display = Some(format!("{}", x)); exp.fdisplay = Some(fmt_display_all(x)); }, no_pull);
         };
         (@one debug, $class:literal, $ty:ty, |$o:ident| $e:expr, $pull:expr, |$px:ident| $pexp:expr) => {
-            wrapped_sites!(reg, "as_debug", $class, $ty, [#[emit::as_debug]], "t {#[emit::as_debug] k}", |$o| $e, |x, exp| { exp.debug = Some(format!("{:?}", x)); }, no_pull);
+            wrapped_sites!(reg, "as_debug", $class, $ty, [#[emit::as_debug]], "t {#[emit::as_debug] k}", |$o| $e, |x, exp| { exp.debug = Some(format!("{:?}", x)); exp.fdebug = Some(fmt_debug_all(x)); }, no_pull);
         };
         (@one value, $class:literal, $ty:ty, |$o:ident| $e:expr, $pull:expr, |$px:ident| $pexp:expr) => {
             wrapped_sites!(reg, "as_value", $class, $ty, [#[emit::as_value]], "t {#[emit::as_value] k}", |$o| $e, |x, exp| { let $px = x; exp.pull = Some($pexp); }, $pull);
@@ -751,13 +875,13 @@ fn sites() -> Vec<Site> {
     wrapped!("error", ChainErr, |o| o, [default_display, display, debug, error], no_pull, |x| format!("{x:?}"));
 
     // capture input forms: trait objects, references to references, a str as an error
-    site!(reg, "as_display_inspect", "dyn_display", DisplayOnly, [#[emit::as_display(inspect: true)]], k, |o| (o as &dyn std::fmt::Display), |x, exp| { exp.display = Some(format!("{}", x)); }, no_pull);
-    site!(reg, "as_debug_inspect", "dyn_debug", DebugOnly, [#[emit::as_debug(inspect: true)]], k, |o| (o as &dyn std::fmt::Debug), |x, exp| { exp.debug = Some(format!("{:?}", x)); }, no_pull);
+    site!(reg, "as_display_inspect", "dyn_display", DisplayOnly, [#[emit::as_display(inspect: true)]], k, |o| (o as &dyn std::fmt::Display), |x, exp| { exp.display = Some(format!("{}", x)); exp.fdisplay = Some(fmt_display_all(x)); }, no_pull);
+    site!(reg, "as_debug_inspect", "dyn_debug", DebugOnly, [#[emit::as_debug(inspect: true)]], k, |o| (o as &dyn std::fmt::Debug), |x, exp| { exp.debug = Some(format!("{:?}", x)); exp.fdebug = Some(fmt_debug_all(x)); }, no_pull);
     macro_rules! ref_ref_sites {
         ($ty:ty, $pull:expr, |$px:ident| $pexp:expr) => {
             site!(reg, "as_value", "ref_ref", $ty, [#[emit::as_value]], k, |o| &o, |x, exp| { let $px = x; exp.pull = Some($pexp); }, $pull);
-            site!(reg, "as_display", "ref_ref", $ty, [#[emit::as_display]], k, |o| &o, |x, exp| { exp.display = Some(format!("{}", x)); }, no_pull);
-            site!(reg, "as_debug", "ref_ref", $ty, [#[emit::as_debug]], k, |o| &o, |x, exp| { exp.debug = Some(format!("{:?}", x)); }, no_pull);
+            site!(reg, "as_display", "ref_ref", $ty, [#[emit::as_display]], k, |o| &o, |x, exp| { exp.display = Some(format!("{}", x)); exp.fdisplay = Some(fmt_display_all(x)); }, no_pull);
+            site!(reg, "as_debug", "ref_ref", $ty, [#[emit::as_debug]], k, |o| &o, |x, exp| { exp.debug = Some(format!("{:?}", x)); exp.fdebug = Some(fmt_debug_all(x)); }, no_pull);
             site!(reg, "as_sval", "ref_ref", $ty, [#[emit::as_sval]], k, |o| &o, |x, exp| { exp.serde = serde_json::to_string(x).ok(); exp.sval = sval_json::stream_to_string(x).ok(); }, no_pull);
             site!(reg, "as_serde", "ref_ref", $ty, [#[emit::as_serde]], k, |o| &o, |x, exp| { exp.serde = serde_json::to_string(x).ok(); exp.sval = sval_json::stream_to_string(x).ok(); }, no_pull);
         };
@@ -790,14 +914,14 @@ fn sites() -> Vec<Site> {
     site!(reg, "span_id_key", "wk_value", u64, [], span_id, |o| *o, |x, exp| { exp.pull = Some(format!("{:?}", emit::SpanId::from_u64(*x))); }, |v: emit::Value| Some(format!("{:?}", v.cast::<emit::SpanId>())));
 
     // f32: pulls back as the f64 it denotes; char: displays
-    site!(reg, "default", "float32", f32, [], k, |o| *o, |x, exp| { exp.display = Some(format!("{}", x)); exp.pull = Some(format!("{:?}", *x as f64)); }, |v: emit::Value| v.cast::<f64>().map(|x| format!("{x:?}")));
-    site!(reg, "default", "char", char, [], k, |o| *o, |x, exp| { exp.display = Some(format!("{}", x)); }, no_pull);
+    site!(reg, "default", "float32", f32, [], k, |o| *o, |x, exp| { exp.display = Some(format!("{}", x)); exp.fdisplay = Some(fmt_display_all(x)); exp.f64 = MaybeF64::f64_text(x); exp.pull = Some(format!("{:?}", *x as f64)); }, |v: emit::Value| v.cast::<f64>().map(|x| format!("{x:?}")));
+    site!(reg, "default", "char", char, [], k, |o| *o, |x, exp| { exp.display = Some(format!("{}", x)); exp.fdisplay = Some(fmt_display_all(x)); }, no_pull);
     macro_rules! small_sites {
         ($class:literal, $ty:ty) => {
-            site!(reg, "as_display", $class, $ty, [#[emit::as_display]], k, |o| *o, |x, exp| { exp.display = Some(format!("{}", x)); }, no_pull);
-            site!(reg, "as_display_inspect", $class, $ty, [#[emit::as_display(inspect: true)]], k, |o| *o, |x, exp| { exp.display = Some(format!("{}", x)); }, no_pull);
-            site!(reg, "as_debug", $class, $ty, [#[emit::as_debug]], k, |o| *o, |x, exp| { exp.debug = Some(format!("{:?}", x)); }, no_pull);
-            site!(reg, "as_debug_inspect", $class, $ty, [#[emit::as_debug(inspect: true)]], k, |o| *o, |x, exp| { exp.debug = Some(format!("{:?}", x)); }, no_pull);
+            site!(reg, "as_display", $class, $ty, [#[emit::as_display]], k, |o| *o, |x, exp| { exp.display = Some(format!("{}", x)); exp.fdisplay = Some(fmt_display_all(x)); }, no_pull);
+            site!(reg, "as_display_inspect", $class, $ty, [#[emit::as_display(inspect: true)]], k, |o| *o, |x, exp| { exp.display = Some(format!("{}", x)); exp.fdisplay = Some(fmt_display_all(x)); }, no_pull);
+            site!(reg, "as_debug", $class, $ty, [#[emit::as_debug]], k, |o| *o, |x, exp| { exp.debug = Some(format!("{:?}", x)); exp.fdebug = Some(fmt_debug_all(x)); }, no_pull);
+            site!(reg, "as_debug_inspect", $class, $ty, [#[emit::as_debug(inspect: true)]], k, |o| *o, |x, exp| { exp.debug = Some(format!("{:?}", x)); exp.fdebug = Some(fmt_debug_all(x)); }, no_pull);
             site!(reg, "as_sval", $class, $ty, [#[emit::as_sval]], k, |o| *o, |x, exp| { exp.serde = serde_json::to_string(x).ok(); exp.sval = sval_json::stream_to_string(x).ok(); }, no_pull);
             site!(reg, "as_serde", $class, $ty, [#[emit::as_serde]], k, |o| *o, |x, exp| { exp.serde = serde_json::to_string(x).ok(); exp.sval = sval_json::stream_to_string(x).ok(); }, no_pull);
         };
@@ -808,14 +932,14 @@ fn sites() -> Vec<Site> {
     // structs, enums: Display + Debug + serde + sval
     macro_rules! display_sites {
         ($class:literal, $ty:ty) => {
-            site!(reg, "default", $class, $ty, [], k, |o| o, |x, exp| { exp.display = Some(format!("{}", x)); }, no_pull);
-            site!(reg, "as_display", $class, $ty, [#[emit::as_display]], k, |o| o, |x, exp| { exp.display = Some(format!("{}", x)); }, no_pull);
+            site!(reg, "default", $class, $ty, [], k, |o| o, |x, exp| { exp.display = Some(format!("{}", x)); exp.fdisplay = Some(fmt_display_all(x)); }, no_pull);
+            site!(reg, "as_display", $class, $ty, [#[emit::as_display]], k, |o| o, |x, exp| { exp.display = Some(format!("{}", x)); exp.fdisplay = Some(fmt_display_all(x)); }, no_pull);
         };
     }
     display_sites!("struct", Rec);
     display_sites!("enum", En);
-    site!(reg, "as_debug_inspect", "struct", Rec, [#[emit::as_debug(inspect: true)]], k, |o| o, |x, exp| { exp.debug = Some(format!("{:?}", x)); }, no_pull);
-    site!(reg, "as_debug_inspect", "enum", En, [#[emit::as_debug(inspect: true)]], k, |o| o, |x, exp| { exp.debug = Some(format!("{:?}", x)); }, no_pull);
+    site!(reg, "as_debug_inspect", "struct", Rec, [#[emit::as_debug(inspect: true)]], k, |o| o, |x, exp| { exp.debug = Some(format!("{:?}", x)); exp.fdebug = Some(fmt_debug_all(x)); }, no_pull);
+    site!(reg, "as_debug_inspect", "enum", En, [#[emit::as_debug(inspect: true)]], k, |o| o, |x, exp| { exp.debug = Some(format!("{:?}", x)); exp.fdebug = Some(fmt_debug_all(x)); }, no_pull);
     tree_sites!(reg, "struct", Rec);
     tree_sites!(reg, "enum", En);
     tree_sites!(reg, "seq", Vec<i64>);
@@ -834,7 +958,7 @@ fn sites() -> Vec<Site> {
         ($class:literal, $ty:ty, |$o:ident| $e:expr) => {
             site!(reg, "as_sval", $class, $ty, [#[emit::as_sval]], k, |$o| $e, |x, exp| { let $o = x; let y = $e; exp.serde = serde_json::to_string(&y).ok(); exp.sval = sval_json::stream_to_string(&y).ok(); }, no_pull);
             site!(reg, "as_serde", $class, $ty, [#[emit::as_serde]], k, |$o| $e, |x, exp| { let $o = x; let y = $e; exp.serde = serde_json::to_string(&y).ok(); exp.sval = sval_json::stream_to_string(&y).ok(); }, no_pull);
-            site!(reg, "as_debug", $class, $ty, [#[emit::as_debug]], k, |$o| $e, |x, exp| { let $o = x; let y = $e; exp.debug = Some(format!("{:?}", y)); }, no_pull);
+            site!(reg, "as_debug", $class, $ty, [#[emit::as_debug]], k, |$o| $e, |x, exp| { let $o = x; let y = $e; exp.debug = Some(format!("{:?}", y)); exp.fdebug = Some(fmt_debug_all(&y)); }, no_pull);
         };
     }
     option_sites!("option_some", SomeI32, |o| o.0);
@@ -843,16 +967,55 @@ fn sites() -> Vec<Site> {
     // errors
     site!(reg, "as_error", "error", ChainErr, [#[emit::as_error]], k, |o| o, |x, exp| { exp.chain = Some(chain_of(x)); }, no_pull);
     site!(reg, "err_key", "error", ChainErr, [], err, |o| o, |x, exp| { exp.chain = Some(chain_of(x)); }, no_pull);
-    site!(reg, "default", "error", ChainErr, [], k, |o| o, |x, exp| { exp.display = Some(format!("{}", x)); }, no_pull);
-    site!(reg, "as_display", "error", ChainErr, [#[emit::as_display]], k, |o| o, |x, exp| { exp.display = Some(format!("{}", x)); }, no_pull);
-    site!(reg, "as_debug", "error", ChainErr, [#[emit::as_debug]], k, |o| o, |x, exp| { exp.debug = Some(format!("{:?}", x)); }, no_pull);
+    site!(reg, "default", "error", ChainErr, [], k, |o| o, |x, exp| { exp.display = Some(format!("{}", x)); exp.fdisplay = Some(fmt_display_all(x)); }, no_pull);
+    site!(reg, "as_display", "error", ChainErr, [#[emit::as_display]], k, |o| o, |x, exp| { exp.display = Some(format!("{}", x)); exp.fdisplay = Some(fmt_display_all(x)); }, no_pull);
+    site!(reg, "as_debug", "error", ChainErr, [#[emit::as_debug]], k, |o| o, |x, exp| { exp.debug = Some(format!("{:?}", x)); exp.fdebug = Some(fmt_debug_all(x)); }, no_pull);
 
     // user types with one formatting trait only
-    site!(reg, "default", "display_only", DisplayOnly, [], k, |o| o, |x, exp| { exp.display = Some(format!("{}", x)); }, no_pull);
-    site!(reg, "as_display", "display_only", DisplayOnly, [#[emit::as_display]], k, |o| o, |x, exp| { exp.display = Some(format!("{}", x)); }, no_pull);
-    site!(reg, "as_display_inspect", "display_only", DisplayOnly, [#[emit::as_display(inspect: true)]], k, |o| o, |x, exp| { exp.display = Some(format!("{}", x)); }, no_pull);
-    site!(reg, "as_debug", "debug_only", DebugOnly, [#[emit::as_debug]], k, |o| o, |x, exp| { exp.debug = Some(format!("{:?}", x)); }, no_pull);
-    site!(reg, "as_debug_inspect", "debug_only", DebugOnly, [#[emit::as_debug(inspect: true)]], k, |o| o, |x, exp| { exp.debug = Some(format!("{:?}", x)); }, no_pull);
+    site!(reg, "default", "display_only", DisplayOnly, [], k, |o| o, |x, exp| { exp.display = Some(format!("{}", x)); exp.fdisplay = Some(fmt_display_all(x)); }, no_pull);
+    site!(reg, "as_display", "display_only", DisplayOnly, [#[emit::as_display]], k, |o| o, |x, exp| { exp.display = Some(format!("{}", x)); exp.fdisplay = Some(fmt_display_all(x)); }, no_pull);
+    site!(reg, "as_display_inspect", "display_only", DisplayOnly, [#[emit::as_display(inspect: true)]], k, |o| o, |x, exp| { exp.display = Some(format!("{}", x)); exp.fdisplay = Some(fmt_display_all(x)); }, no_pull);
+    site!(reg, "as_debug", "debug_only", DebugOnly, [#[emit::as_debug]], k, |o| o, |x, exp| { exp.debug = Some(format!("{:?}", x)); exp.fdebug = Some(fmt_debug_all(x)); }, no_pull);
+    site!(reg, "as_debug_inspect", "debug_only", DebugOnly, [#[emit::as_debug(inspect: true)]], k, |o| o, |x, exp| { exp.debug = Some(format!("{:?}", x)); exp.fdebug = Some(fmt_debug_all(x)); }, no_pull);
+
+    // no macro: hand-built properties through the conversion API (Value::from / to_value)
+    macro_rules! from_site {
+        ($class:literal, $ty:ty, |$o:ident| $e:expr, |$x:ident, $exp:ident| $fill:block, $pull:expr) => {
+            site!(@core reg, "from_value", $class, "props", $ty, "k", |$o| { let props = [("k", $e)]; } => &props, |$x, $exp| $fill, $pull);
+        };
+    }
+    macro_rules! from_prim {
+        ($class:literal, $($ty:ty),*) => {$(
+            from_site!($class, $ty, |o| emit::Value::from(*o), |x, exp| { exp.f64 = MaybeF64::f64_text(x); exp.pull = Some(format!("{x:?}")); }, |v: emit::Value| v.cast::<$ty>().map(|x| format!("{x:?}")));
+        )*};
+    }
+    from_prim!("int", i8, i16, i32, i64, i128, isize, u8, u16, u32, u64, u128, usize);
+    from_prim!("float", f64);
+    from_prim!("bool", bool);
+    from_site!("str", String, |o| emit::Value::from(&o[..]), |x, exp| { exp.pull = Some(format!("{:?}", &x[..])); }, str_pull);
+    from_site!("string", String, |o| emit::Value::from(o), |x, exp| { exp.pull = Some(format!("{:?}", &x[..])); }, str_pull);
+    from_site!("string", Cow<'static, str>, |o| emit::Value::from(o), |x, exp| { exp.pull = Some(format!("{:?}", &x[..])); }, str_pull);
+    from_site!("option_some", String, |o| emit::Value::from(Some(o)), |x, exp| { exp.pull = Some(format!("{:?}", &x[..])); }, str_pull);
+    from_site!("option_some", String, |o| emit::Value::from(Some(&o[..])), |x, exp| { exp.pull = Some(format!("{:?}", &x[..])); }, str_pull);
+    from_site!("option_some", Cow<'static, str>, |o| emit::Value::from(Some(o)), |x, exp| { exp.pull = Some(format!("{:?}", &x[..])); }, str_pull);
+    from_site!("option_some", SomeI32, |o| emit::Value::from(o.0), |x, exp| { exp.pull = Some(format!("{:?}", x.0.unwrap())); }, |v: emit::Value| v.cast::<i32>().map(|x| format!("{x:?}")));
+    from_site!("option_some", u128, |o| emit::Value::from(Some(*o)), |x, exp| { exp.pull = Some(format!("{x:?}")); }, |v: emit::Value| v.cast::<u128>().map(|x| format!("{x:?}")));
+    from_site!("option_none", Option<i32>, |o| emit::Value::from(*o), |_x, _exp| {}, no_pull);
+    from_site!("option_none", String, |_o| emit::Value::from(None::<&String>), |_x, _exp| {}, no_pull);
+    from_site!("option_none", Cow<'static, str>, |_o| emit::Value::from(None::<&Cow<'static, str>>), |_x, _exp| {}, no_pull);
+    from_site!("option_none", f64, |_o| emit::Value::from(None::<f64>), |_x, _exp| {}, no_pull);
+    // trait objects through ToValue
+    from_site!("error", ChainErr, |o| emit::value::ToValue::to_value(o as &(dyn std::error::Error + 'static)), |x, exp| { exp.chain = Some(chain_of(x)); }, no_pull);
+    from_site!("dyn_display", DisplayOnly, |o| emit::value::ToValue::to_value(o as &dyn std::fmt::Display), |x, exp| { exp.display = Some(format!("{}", x)); exp.fdisplay = Some(fmt_display_all(x)); }, no_pull);
+    from_site!("dyn_debug", DebugOnly, |o| emit::value::ToValue::to_value(o as &dyn std::fmt::Debug), |x, exp| { exp.debug = Some(format!("{:?}", x)); exp.fdebug = Some(fmt_debug_all(x)); }, no_pull);
+    // fixed-size arrays of primitives: From<&[T; N]> and [T; N]: ToValue
+    macro_rules! arr_sites {
+        ($($ty:ty),*) => {$(
+            from_site!("arr", $ty, |o| emit::Value::from(o), |x, exp| { exp.serde = serde_json::to_string(&x[..]).ok(); exp.sval = sval_json::stream_to_string(&x[..]).ok(); }, no_pull);
+            from_site!("arr", $ty, |o| emit::value::ToValue::to_value(o), |x, exp| { exp.serde = serde_json::to_string(&x[..]).ok(); exp.sval = sval_json::stream_to_string(&x[..]).ok(); }, no_pull);
+        )*};
+    }
+    arr_sites!([i64; 3], [u8; 2], [u128; 1], [f64; 2], [bool; 2], [i32; 0], [&'static str; 2]);
 
     // optional None: no property at all
     site!(reg, "optional_default", "none_prim", i32, [#[emit::optional]], k, |_o| None::<&i32>, |_x, _exp| {}, no_pull);
@@ -865,19 +1028,58 @@ fn sites() -> Vec<Site> {
     reg
 }
 
-fn check(promise: &[String], r: &SiteResult) -> Vec<(String, Value)> {
+fn check(promise: &[String], r: &SiteResult, reader: &str, direct: bool, fams: &[usize]) -> Vec<(String, Value)> {
     let mut bad = Vec::new();
     let obs = r.obs.clone().unwrap_or_default();
     for c in promise {
         let (ok, want, got): (bool, Value, Value) = match c.as_str() {
             "present" => (r.present && r.enumerated == 1, json!("get = Some, enumerated once"), json!({"present": r.present, "enumerated": r.enumerated})),
             "absent" => (!r.present && r.enumerated == 0 && r.absent_everywhere, json!("no property at all"), json!({"present": r.present, "enumerated": r.enumerated, "absent_everywhere": r.absent_everywhere, "value": obs.display})),
+            // typed read paths
+            "pull" if reader == "as_f64" => match &r.exp.f64 {
+                Some(w) => (obs.pull.as_ref() == Some(w), json!(w), json!(obs.pull)),
+                None => continue, // not a number: what as_f64 answers is not decided
+            },
+            "pull" if reader == "borrowed_str" || reader == "cast_ref_str" => {
+                // the string itself; once the value has been copied the borrow may be absent
+                let ok = r.exp.pull.is_some() && (obs.pull == r.exp.pull || (obs.pull.is_none() && !direct));
+                (ok, json!({"borrowed": r.exp.pull, "must_be_some": direct}), json!(obs.pull))
+            }
             "pull" => (r.exp.pull.is_some() && obs.pull == r.exp.pull, json!(r.exp.pull), json!(obs.pull)),
-            "display" => (r.exp.display.is_some() && Some(&obs.display) == r.exp.display.as_ref(), json!(r.exp.display), json!(obs.display)),
-            "debug" => (r.exp.debug.is_some() && Some(&obs.display) == r.exp.debug.as_ref() && Some(&obs.debug) == r.exp.debug.as_ref(), json!(r.exp.debug), json!([obs.display, obs.debug])),
+            // ... under the plain formatter and under every formatter flag family
+            "display" => {
+                let plain = r.exp.display.is_some() && Some(&obs.display) == r.exp.display.as_ref();
+                let want = r.exp.fdisplay.clone().unwrap_or_default();
+                let fam = fams.iter().copied().find(|&i| i != HEX && want.get(i) != obs.fdisplay.get(i));
+                let hole = obs.holes.as_ref().map(|h| want.get(WIDTHPREC) == Some(&h[2])).unwrap_or(true);
+                match (plain, fam, hole) {
+                    (false, _, _) => (false, json!(r.exp.display), json!(obs.display)),
+                    (_, Some(i), _) => (false, json!({"fmt": FAMILIES[i], "text": want.get(i)}), json!(obs.fdisplay.get(i))),
+                    (_, _, false) => (false, json!({"hole": "#[emit::fmt(\">8.2\")]", "text": want.get(WIDTHPREC)}), json!(obs.holes)),
+                    _ => (true, json!(null), json!(null)),
+                }
+            }
+            "debug" => {
+                let plain = r.exp.debug.is_some() && Some(&obs.display) == r.exp.debug.as_ref() && Some(&obs.debug) == r.exp.debug.as_ref();
+                let want = r.exp.fdebug.clone().unwrap_or_default();
+                let fam = fams.iter().copied().find(|&i| want.get(i) != obs.fdebug.get(i) || (i != HEX && want.get(i) != obs.fdisplay.get(i)));
+                let hole = obs.holes.as_ref().map(|h| want.first() == Some(&h[0]) && want.get(WIDTHPREC) == Some(&h[1]) && want.get(WIDTHPREC) == Some(&h[2])).unwrap_or(true);
+                match (plain, fam, hole) {
+                    (false, _, _) => (false, json!(r.exp.debug), json!([obs.display, obs.debug])),
+                    (_, Some(i), _) => (false, json!({"fmt": FAMILIES[i], "text": want.get(i)}), json!([obs.fdisplay.get(i), obs.fdebug.get(i)])),
+                    (_, _, false) => (false, json!({"holes": ["#?", ">8.2?", ">8.2"], "text": [want.first(), want.get(WIDTHPREC), want.get(WIDTHPREC)]}), json!(obs.holes)),
+                    _ => (true, json!(null), json!(null)),
+                }
+            }
             "debug_or_text" => {
                 let d = Some(&obs.display) == r.exp.debug.as_ref() || Some(&obs.display) == r.exp.text.as_ref();
-                (r.exp.debug.is_some() && d, json!([r.exp.debug, r.exp.text]), json!(obs.display))
+                let (wd, wt) = (r.exp.fdebug.clone().unwrap_or_default(), r.exp.ftext.clone().unwrap_or_default());
+                let fam = fams.iter().copied().find(|&i| i != HEX && obs.fdisplay.get(i) != wd.get(i) && obs.fdisplay.get(i) != wt.get(i));
+                match (r.exp.debug.is_some() && d, fam) {
+                    (false, _) => (false, json!([r.exp.debug, r.exp.text]), json!(obs.display)),
+                    (_, Some(i)) => (false, json!({"fmt": FAMILIES[i], "text": [wd.get(i), wt.get(i)]}), json!(obs.fdisplay.get(i))),
+                    _ => (true, json!(null), json!(null)),
+                }
             }
             "tree" => {
                 let serde_ok = r.exp.serde.is_some() && obs.serde == r.exp.serde;
@@ -900,7 +1102,18 @@ fn check(promise: &[String], r: &SiteResult) -> Vec<(String, Value)> {
                 continue;
             }
             "chain" => (r.exp.chain.is_some() && obs.chain == r.exp.chain, json!(r.exp.chain), json!(obs.chain)),
-            "text_stable" => (r.base_display.is_some() && Some(&obs.display) == r.base_display.as_ref(), json!(r.base_display), json!(obs.display)),
+            "text_stable" => {
+                let plain = r.base_display.is_some() && Some(&obs.display) == r.base_display.as_ref();
+                let (bd, bg) = (r.base_fdisplay.clone().unwrap_or_default(), r.base_fdebug.clone().unwrap_or_default());
+                // (hex-debug of a typed integer shows the two's complement of whatever width the representation
+                // keeps it in - i64 borrowed, i128 owned: not decided)
+                let fam = fams.iter().copied().find(|&i| i != HEX && (bd.get(i) != obs.fdisplay.get(i) || bg.get(i) != obs.fdebug.get(i)));
+                match (plain, fam) {
+                    (false, _) => (false, json!(r.base_display), json!(obs.display)),
+                    (_, Some(i)) => (false, json!({"fmt": FAMILIES[i], "text": [bd.get(i), bg.get(i)]}), json!([obs.fdisplay.get(i), obs.fdebug.get(i)])),
+                    _ => (true, json!(null), json!(null)),
+                }
+            }
             "null" => (obs.is_null, json!("the null value"), json!({"display": obs.display, "is_null": obs.is_null})),
             o => tool_error(&format!("unknown component {o}")),
         };
@@ -924,6 +1137,8 @@ fn main() {
     let reg = sites();
     let passes: u64 = std::env::var("VERIF_PASSES").ok().and_then(|s| s.parse().ok()).unwrap_or(1);
     let mut rep = Report::new();
+    // two witnesses per category are kept: the cap must not let one (known) family of categories crowd out another
+    rep.max_mismatches = std::env::var("VERIF_MAX_MISMATCHES").ok().and_then(|s| s.parse().ok()).unwrap_or(4000);
     let mut by_cat: BTreeMap<String, u64> = BTreeMap::new();
     let mut execs = 0u64;
     let mut used_sites = std::collections::HashSet::new();
@@ -937,6 +1152,15 @@ fn main() {
         let path: Vec<Step> = case["path"].as_array().unwrap().iter().map(|s| step_of(s.as_str().unwrap())).collect();
         let promise: Vec<String> = case["promise"].as_array().unwrap().iter().map(|s| s.as_str().unwrap().to_string()).collect();
         let only_ty = case.get("ty").and_then(|t| t.as_str());
+        // the formatter flag families the specification quantifies the Display / Debug components over
+        let fams: Vec<usize> = case.get("fmts").and_then(|f| f.as_array()).map(|a| a.iter().map(|n| {
+            let n = n.as_str().unwrap_or("");
+            FAMILIES.iter().position(|f| *f == n).unwrap_or_else(|| tool_error(&format!("unknown formatter family {n}")))
+        }).collect()).unwrap_or_default();
+        let direct = path.iter().all(|s| matches!(s, Step::ByRef | Step::Erase | Step::EraseEvent));
+        if case.get("direct").and_then(|d| d.as_bool()).map(|d| d != direct).unwrap_or(false) {
+            tool_error("spec and harness disagree on which paths are direct");
+        }
         let matching: Vec<&Site> = reg.iter().filter(|s| s.mode == mode && s.class == class && s.wrap == wrap && only_ty.map(|t| t == s.ty).unwrap_or(true)).collect();
         if matching.is_empty() {
             tool_error(&format!("no call site for mode {mode} class {class} wrap {wrap}: spec and harness disagree"));
@@ -998,7 +1222,7 @@ fn main() {
                     Err(p) => report("panic while capturing / transforming / reading", "panic", json!({"panic": p})),
                     Ok(None) => {}
                     Ok(Some(r)) => {
-                        for (comp, d) in check(&promise, &r) {
+                        for (comp, d) in check(&promise, &r, reader, direct, &fams) {
                             let mut d = d;
                             d["orig"] = json!(r.orig);
                             report("observed value differs from what the capture mode promises", &comp, d);
